@@ -49,6 +49,12 @@ static ZoneRec& zone(size_t i) {
 static int64_t rnd_instant(sup::Rng& r, const ZoneRec& z) {
   if (r.chance(0.04)) {
     static const int64_t k[] = {INT64_MIN, INT64_MIN + 1, INT64_MAX, INT64_MAX - 1, 0, -1, 1, -62135596800LL, -62135596801LL, 253402300799LL, 253402300800LL};
+    if (r.chance(0.4)) {
+      // years where struct tm's int year saturates: INT_MAX + 1900 and INT_MIN + 1900, +- a few years
+      i128 y = (r.chance(0.5) ? (i128)INT_MAX + 1900 : (i128)INT_MIN + 1900) + r.range(-1902, 3);
+      if (r.chance(0.3)) y = (r.chance(0.5) ? (i128)INT_MAX : (i128)INT_MIN) + r.range(-2, 2);
+      return (int64_t)(orc::days_from_civil(y, (int)r.range(1, 12), (int)r.range(1, 28)) * 86400 + r.range(0, 86399));
+    }
     return k[r.range(0, 10)];
   }
   switch (r.range(0, 8)) {
@@ -91,9 +97,9 @@ static fm::Fields fields_of(const cctz::time_zone& tz, int64_t u, int64_t f) {
 // ---------------------------------------------------------------------------- C07
 static void c07_chunk(sup::Ctx& ctx, sup::Rng& r, long n) {
   static const char* dates[] = {"%Y-%m-%d", "%d/%m/%Y", "%m.%d.%Y", "%Y %b %d", "%B %d %Y", "%Y %U %w", "%Y %W %u", "%Y %U %a", "%Y %W %A",
-                                "%E4Y-%m-%d", "%d %h %Y", "%Y%t%m%n%d", "%Y-%m- %e"};
+                                "%E4Y-%m-%d", "%d %h %Y", "%Y%t%m%n%d", "%Y-%m- %e", "%EY-W%U-%u", "%EY %W %w"};
   static const char* times[] = {"%H:%M:%E*S", "%H:%M:%S.%E*f", "%H:%M:%E15S", "%I:%M:%E*S %p", "%H:%M:%S %E15f", "%T.%E*f", "%R:%E*S", "%H.%M.%E18S",
-                                "%l:%M:%E*S %p", "%H%M %E*S"};
+                                "%l:%M:%E*S %p", "%H%M %E*S", "%p %I:%M:%E*S", "%p|%l.%M.%E*S"};
   static const char* offs[] = {"%E*z", "%::z", "%:::z", "%z", "%Ez", "%:z"};
   for (long i = 0; i < n; ++i) {
     ZoneRec& z = zone(r.next());
@@ -101,8 +107,9 @@ static void c07_chunk(sup::Ctx& ctx, sup::Rng& r, long n) {
     int64_t u = rnd_instant(r, z);
     int64_t f = rnd_femto(r);
     auto al = z.tz.lookup(mk(u));
-    int di = (int)r.range(0, 12), ti = (int)r.range(0, 9), oi = (int)r.range(0, 5);
+    int di = (int)r.range(0, 14), ti = (int)r.range(0, 11), oi = (int)r.range(0, 5);
     if (di == 9 && (al.cs.year() < -999 || al.cs.year() > 9999)) di = 0;
+    if (di >= 13 && (al.cs.year() < 1 || al.cs.year() > 9999)) di = 5;  // glibc strptime's %EY: years 1..9999
     if (oi >= 3 && al.offset % 60 != 0) oi = (int)r.range(0, 2);
     std::string D = dates[di], T = times[ti], O = offs[oi], fmt;
     switch (r.range(0, 3)) {
@@ -128,7 +135,7 @@ static void c07_chunk(sup::Ctx& ctx, sup::Rng& r, long n) {
     if (a % 60) ctx.stat("C07.offsets_with_seconds");
     if (al.cs.year() < 0) ctx.stat("C07.negative_years");
     if (al.cs.year() > 9999) ctx.stat("C07.years_beyond_4_digits");
-    if (di >= 5 && di <= 8 && !ps) ctx.stat("C07.week_number_dates");
+    if (((di >= 5 && di <= 8) || di >= 13) && !ps) ctx.stat("C07.week_number_dates");
     ctx.distinct_local.insert(sup::mix(sup::mix(sup::fnvs(fmt), (uint64_t)u), (uint64_t)f));
     if (!good) {
       std::string key = a >= 86400 ? "zone-offset-magnitude-24h:parse-rejects-own-output" : std::string("roundtrip:") + (ok ? "different-instant" : "rejected") + ":" + z.cls;
@@ -185,8 +192,11 @@ static void c08_wellformed(sup::Ctx& ctx, sup::Rng& r, long n) {
           exp += fm::render_lib(fm::kLibToks[li].id, F);
         } else {
           int nd = r.chance(0.3) ? (int)r.range(0, 30) : (int)r.range(0, 18);
+          if (r.chance(0.03)) nd = (int)r.range(1000, 1024);
           bool withS = li == fm::kNumLibToks;
-          fmt += "%E" + std::to_string(nd) + (withS ? "S" : "f");
+          std::string digits = std::to_string(nd);
+          if (r.chance(0.15)) digits.insert(0, static_cast<size_t>(r.range(1, 6)), '0');  // any spelling of the count
+          fmt += "%E" + digits + (withS ? "S" : "f");
           exp += fm::render_frac(nd, withS, F);
         }
         flush_run();
@@ -424,6 +434,29 @@ static void c09_limit_case(sup::Rng& r, std::string* fmt, std::string* in) {
   }
 }
 
+// Civil times at the edges of the zone's own gaps and overlaps, read without offset; the last second of a minute may be
+// written ':60' (denoting the first second of the next minute).
+static bool c09_edge_case(sup::Rng& r, const ZoneRec& z, std::string* fmt, std::string* in) {
+  if (z.Z.f.times.empty()) return false;
+  int64_t T = z.Z.f.times[r.next() % z.Z.f.times.size()];
+  if (z.Z.px_rules && r.chance(0.4)) {
+    i128 y = orc::civ_from_secs(z.Z.f.times.back()).y + r.range(1, 30);
+    i128 b = r.chance(0.5) ? z.Z.start_of(y) : z.Z.end_of(y);
+    if (!orc::fits64(b)) return false;
+    T = (int64_t)b;
+  }
+  int o1 = z.Z.at((i128)T - 1).off, o2 = z.Z.at(T).off;
+  i128 L = (i128)T + (r.chance(0.5) ? o1 : o2) + r.range(-2, 2);
+  if (r.chance(0.3)) L = (i128)T + std::min(o1, o2) + r.range(0, std::abs(o1 - o2) + 1);
+  Civ c = orc::civ_from_secs(L);
+  bool leap = c.S == 59 && r.chance(0.6);
+  char b[96];
+  snprintf(b, sizeof b, "-%02d-%02d %02d:%02d:%02d", c.m, c.d, c.H, c.M, leap ? 60 : c.S);
+  *fmt = r.chance(0.5) ? "%Y-%m-%d %H:%M:%S" : "%Y-%m-%d %H:%M:%E*S";
+  *in = fm::dec(c.y) + b;
+  return true;
+}
+
 static void c09_model(sup::Ctx& ctx, sup::Rng& r, long n) {
   C09Gen g(r);
   for (long i = 0; i < n; ++i) {
@@ -435,6 +468,9 @@ static void c09_model(sup::Ctx& ctx, sup::Rng& r, long n) {
       c09_limit_case(r, &fmt, &in);
       if (fmt.empty()) continue;
       ctx.stat("C09.range_limit_cases");
+    } else if (i % 6 == 4) {
+      if (!c09_edge_case(r, z, &fmt, &in)) continue;
+      ctx.stat("C09.transition_edge_cases");
     } else {
       g.build(&fmt, &in, &y);
     }
